@@ -549,7 +549,7 @@ fn check_explore(case: &Case, idx: u64, acc: &mut Acc) {
     acc.transitions += tr;
     acc.evals_add(tr);
     acc.nontrivial += states;
-    acc.bump_by("max_depth", checker.max_depth() as u64);
+    acc.bump_by("sum over markets of the BFS depth reached", checker.max_depth() as u64);
     acc.outcome(&(states, tr, m.n, m.quotes.clone()));
     let disc = checker.discoveries();
     if let Some(path) = disc.get("history oracles hold") {
